@@ -155,6 +155,18 @@ func (r *rewriter) run() error {
 		}
 	}
 	var err error
+	caseBodies := map[*ast.BlockStmt]bool{}
+	ast.Inspect(r.file, func(n ast.Node) bool {
+		switch n := n.(type) {
+		case *ast.SwitchStmt:
+			caseBodies[n.Body] = true
+		case *ast.TypeSwitchStmt:
+			caseBodies[n.Body] = true
+		case *ast.SelectStmt:
+			caseBodies[n.Body] = true
+		}
+		return true
+	})
 	ast.Inspect(r.file, func(n ast.Node) bool {
 		if err != nil {
 			return false
@@ -172,7 +184,7 @@ func (r *rewriter) run() error {
 				r.yieldBefore(n.Body.List[0])
 			}
 		case *ast.BlockStmt:
-			if r.opt.Yields && !r.opt.FuncEntryOnly {
+			if r.opt.Yields && !r.opt.FuncEntryOnly && !caseBodies[n] {
 				r.yieldList(n.List)
 			}
 		case *ast.CaseClause:
